@@ -214,7 +214,8 @@ RawKind(o) == IF o \in {"read", "drain"} THEN "read" ELSE IF o = "read1n" THEN "
 AfterRaw(m, h) ==
   LET k == RawKind(m.l.op)
       m1 == [m EXCEPT !.s = h.s, !.l.data = h.data] IN
-  IF h.hexc # "none" THEN Unclean(m1, "ProtocolError")
+  IF h.hexc = "AttributeError" THEN Unclean(m1, "AttributeError")
+  ELSE IF h.hexc # "none" THEN Unclean(m1, "ProtocolError")
   ELSE IF k # "read" /\ h.data = 0 THEN
       LET m2 == [m1 EXCEPT !.s = OrigClose(h.s)] IN
       IF h.s.ulen > 0 /\ h.s.fr = "cl" THEN Unclean(m2, "ProtocolError") ELSE Clean(m2)
@@ -229,15 +230,23 @@ AfterChunk(m) ==
   ELSE IF s.rcv2 = "stub" THEN Unclean(m, "ProtocolError")                   \* end of file inside the chunk: IncompleteRead
   ELSE Park(Push(m, "ucl"), "ClsBegin")                                      \* end of file at the size line: self.close(), ProtocolError
 
+\* http.client's answer when another thread closed the http.client response (fp = None) while this call was waiting
+\* for the socket: whatever needs no _close_conn() is answered as usual; _close_conn() itself trips over fp = None
+HttpClosedUnder(s, kind) ==
+  LET r == Http([s EXCEPT !.hfp = TRUE], kind) IN
+  IF r.s.hfp THEN [s |-> [s EXCEPT !.pos = r.s.pos, !.hmid = r.s.hmid], data |-> r.data, hexc |-> r.hexc]
+  ELSE [s |-> [s EXCEPT !.pos = r.s.pos, !.hmid = r.s.hmid], data |-> 0, hexc |-> "AttributeError"]
+
 IoDone(m, bad) ==
   IF bad # "none" THEN Unclean(m, bad)
   ELSE IF m.l.iok = "chunk" THEN AfterChunk(m)
+  ELSE IF m.l.hfp0 /\ ~m.s.hfp THEN AfterRaw(m, HttpClosedUnder(m.s, m.l.iok))
   ELSE AfterRaw(m, Http(m.s, m.l.iok))
 
 \* start the I/O of a read call of kind k
 IoStart(m, k) ==
   LET need == NeedOf(m.s, k)
-      m1 == [m EXCEPT !.l.iok = k, !.l.need = need, !.l.eof = FALSE] IN
+      m1 == [m EXCEPT !.l.iok = k, !.l.need = need, !.l.eof = FALSE, !.l.hfp0 = m.s.hfp] IN
   IF Sat(need, m.s, FALSE) THEN IoDone(m1, "none")
   ELSE IF Eager THEN LET e == EagerIo(m.s, need, FALSE) IN IoDone([m1 EXCEPT !.s = e.s, !.l.eof = e.eof], e.bad)
   ELSE Park(m1, "Recv")
@@ -320,7 +329,11 @@ StepAt(m) ==
     [] pc = "Recv" ->
          LET m1 == IF s.kern = 1 THEN [m EXCEPT !.s.kern = 0, !.s.rcv2 = F2(s), !.s.io = "recv"]
                    ELSE [m EXCEPT !.l.eof = TRUE, !.s.io = "recv"] IN
-         IF Sat(m1.l.need, m1.s, m1.l.eof) THEN IoDone(m1, "none") ELSE m1
+         IF s.fr = "chunked" /\ m.l.hfp0 /\ ~s.hfp /\ s.rcv2 = "no"
+           \* the call was waiting for a chunk-size line when another thread set fp = None: http.client's chunk parser
+           \* goes back to self.fp for the chunk data (or to _close_conn at end of file) and trips over None
+           THEN AfterRaw(m1, [s |-> m1.s, data |-> 0, hexc |-> "AttributeError"])
+         ELSE IF Sat(m1.l.need, m1.s, m1.l.eof) THEN IoDone(m1, "none") ELSE m1
     [] pc = "BufWait" ->
          LET s1 == BufClose(s) IN
          IF m.l.after = "CatClose2" THEN Park([m EXCEPT !.s = IF s1.own THEN ConnClose(s1) ELSE s1], "CatRel")
@@ -362,7 +375,7 @@ Next == \/ \E t \in Threads, o \in StepOps : ThreadStep(t, o)
 
 \* ------------------------------------------------------------------------------------------------- Init
 Local0(prog) == [pc |-> IF Eager \/ Len(prog) > 0 THEN "Idle" ELSE "Done", op |-> "none", stk |-> <<>>, data |-> 0,
-                 clean |-> FALSE, exc |-> "none", fpc |-> FALSE, need |-> "none", eof |-> FALSE, iok |-> "none",
+                 clean |-> FALSE, exc |-> "none", fpc |-> FALSE, need |-> "none", eof |-> FALSE, iok |-> "none", hfp0 |-> FALSE,
                  after |-> "none", arg |-> FALSE, res |-> "none", errk |-> "none", nops |-> 0, prog |-> prog, prog0 |-> prog]
 
 Shared0(fr, sv, mode) ==
